@@ -226,8 +226,21 @@ inline std::string shlog_tail(size_t maxbytes) {
     return std::string(l->data + from, n - from);
 }
 
+inline SharedVerdict *&shared_verdict() { static SharedVerdict *sv = nullptr; return sv; }
+// child side: publish the verdict and leave (also usable from a stuck-scheduler hook that must not return)
+inline void child_finish(const Verdict &v) {
+    SharedVerdict *sv = shared_verdict();
+    sv->ok = v.ok; sv->nontrivial = v.nontrivial; sv->inconclusive = v.inconclusive;
+    snprintf(sv->rule, sizeof sv->rule, "%s", v.rule.c_str());
+    snprintf(sv->message, sizeof sv->message, "%s", v.message.c_str());
+    std::string cl; for (auto &c : v.classes) { cl += c; cl += '\n'; }
+    snprintf(sv->classes, sizeof sv->classes, "%s", cl.c_str());
+    sv->done = 1;
+    _exit(0);
+}
+
 inline Verdict run_forked(const std::string &prop, const std::function<Verdict()> &fn, int timeout_s = 20, std::string *stderr_out = nullptr) {
-    static SharedVerdict *sv = nullptr;
+    SharedVerdict *&sv = shared_verdict();
     if (!sv) sv = (SharedVerdict *)mmap(nullptr, sizeof(SharedVerdict), PROT_READ | PROT_WRITE, MAP_SHARED | MAP_ANONYMOUS, -1, 0);
     memset(sv, 0, sizeof *sv);
     shlog_init(); shlog_ptr()->len = 0;
@@ -241,13 +254,7 @@ inline Verdict run_forked(const std::string &prop, const std::function<Verdict()
         close(errpipe[1]);
         alarm(timeout_s);
         Verdict v = fn();
-        sv->ok = v.ok; sv->nontrivial = v.nontrivial; sv->inconclusive = v.inconclusive;
-        snprintf(sv->rule, sizeof sv->rule, "%s", v.rule.c_str());
-        snprintf(sv->message, sizeof sv->message, "%s", v.message.c_str());
-        std::string cl; for (auto &c : v.classes) { cl += c; cl += '\n'; }
-        snprintf(sv->classes, sizeof sv->classes, "%s", cl.c_str());
-        sv->done = 1;
-        _exit(0);
+        child_finish(v);
     }
     close(errpipe[1]);
     std::string err;
